@@ -67,9 +67,24 @@ class MediaList(cssutils.util._NewListBase):
                 yield item
 
     length = property(
-        lambda self: len(list(self)),
+        lambda self: len(self),
         doc="The number of media in the list (DOM readonly).",
     )
+
+    def __len__(self):
+        return sum(1 for item in self)
+
+    def _seqindex(self, index):
+        "Return index in ``seq`` of the `index`'th medium (not comment)."
+        return [i for i, item in enumerate(self._seq) if item.type == 'MediaQuery'][
+            index
+        ]
+
+    def __getitem__(self, index):
+        return self._seq[self._seqindex(index)].value
+
+    def __delitem__(self, index):
+        del self._seq[self._seqindex(index)]
 
     def _getMediaText(self):
         return cssutils.ser.do_stylesheets_medialist(self)
